@@ -1016,7 +1016,16 @@ func (c *evalCtx) call(x *ECall) Term {
 			c.fail("athead(e) is available in iterpost clauses only")
 		}
 		n := *c
-		n.st, n.env = c.headSt, c.headEnv
+		// loop variables have their value at the loop head; names that only exist in the body keep their
+		// current value and are read against the head state (athead(allocated(p)): was p allocated then?)
+		env := map[string]Term{}
+		for k, v := range c.env {
+			env[k] = v
+		}
+		for k, v := range c.headEnv {
+			env[k] = v
+		}
+		n.st, n.env = c.headSt, env
 		return n.eval(x.Args[0])
 	case "allocated":
 		a := c.eval(x.Args[0])
